@@ -393,6 +393,31 @@ func checkRegistryConsistencyInner(r lint.Registry, bad func(sig, msg string)) {
 			bad("bysource-partition|"+l.Name, fmt.Sprintf("lint reached %d times through BySource, want 1", perSrc[l.Kind+"|"+l.Name]))
 		}
 	}
+	// each per-kind lookup: its own Sources() is exactly the set of sources of its own lints
+	kindSources := map[string]lint.SourceList{"cert": r.CertificateLints().Sources(), "crl": r.RevocationListLints().Sources(), "ocsp": r.OcspResponseLints().Sources()}
+	for kind, sl := range kindSources {
+		have := map[lint.LintSource]bool{}
+		for _, l := range all {
+			if l.Kind == kind {
+				have[l.Meta.Source] = true
+			}
+		}
+		listed := map[lint.LintSource]bool{}
+		for _, s := range sl {
+			if listed[s] {
+				bad("kind-sources-dup|"+kind+"|"+string(s), "per-kind Sources() lists a source twice")
+			}
+			listed[s] = true
+			if !have[s] {
+				bad("kind-sources-extra|"+kind+"|"+string(s), "per-kind Sources() lists a source none of that kind's lints has")
+			}
+		}
+		for s := range have {
+			if !listed[s] {
+				bad("kind-sources-missing|"+kind+"|"+string(s), "per-kind Sources() misses the source of one of its lints")
+			}
+		}
+	}
 	// the full listing (WriteJSON): one line per lint of any kind, each naming a listed lint once
 	var buf bytes.Buffer
 	r.WriteJSON(&buf)
